@@ -91,6 +91,13 @@ class World:
         pol = self._policy.get(qual)
         if pol is None and any(qual.startswith(p) for p in self.inline_prefixes):
             return "inline"
+        if pol is None:
+            # a helper that did not exist when the contracts were written (baseline/functions.json) has no contract of its own:
+            # it is part of its caller's body (extract-function refactorings leave the verified text the same up to a call)
+            from .frames import _known
+
+            if not _known(qual):
+                return "inline"
         return pol
 
     def loop_spec(self, I, qual, ordinal):
